@@ -15,3 +15,4 @@ import QV.Properties.C17
 import QV.Properties.C31
 import QV.Properties.C18
 import QV.Properties.C19
+import QV.Properties.C16
